@@ -6,7 +6,8 @@ scheduler (virtual timeouts are not fired) until nothing can run any more (quies
      depend on the run length, for runs of N and of 2N source chunks (N > B);
  (2) eager mode: no mailbox ever holds more than its capacity (inspected at every scheduler step);
  (3) lazy mode: whenever a mailbox advances its source iterator, a driving subscriber is waiting for a message
-     number that is not in the box (or the mailbox is killed).
+     number that is not in the box (or the mailbox is killed); the iterator of a multi-output plugin (which feeds its
+     output mailboxes through strax's internal divider) only while a driving reader of one of its outputs does.
 """
 import itertools
 import os
@@ -17,7 +18,7 @@ from hypothesis import strategies as st
 import strax
 import strax.mailbox
 from vf import graphs
-from vf.core import SubCheck, Violation
+from vf.core import Inconclusive, SubCheck, Violation
 from vf.findings import signature
 from vf.props import c01
 from vf.sched import policies
@@ -37,6 +38,10 @@ ASSUMPTIONS = [
     "B = k + capacity * (#mailboxes + #reader subscriptions) + 3 * #threads + withholding of overlap plugins "
     "(chunks inside 2*(w_left + w_right) + 2 grid units) - an over-estimate that only has to be independent of N",
     "exhaust plugins are excluded (they consume the whole run by definition)",
+    "graphs in which a multi-dependency plugin reads one upstream mailbox directly and through a withholding plugin "
+    "(diamond + overlap window / down-chunking) get capacity + (w_left + w_right + 3 per overlap plugin, 2 per "
+    "down-chunking plugin): a constant of the graph above the lag those plugins introduce; should such a graph still "
+    "not come to rest the case is inconclusive (capacity <= lag is outside the property), never a violation",
     "quiescence = no controlled thread runnable while the consumer is parked; timed waits do not fire",
     "preemption at synchronisation operations only",
 ]
@@ -68,6 +73,7 @@ class Watch:
         self.cap_violation = None
         self.fetch_violation = None
         self.fetches = 0
+        self.outputs_of = {}  # name of a multi-output plugin's temporary mailbox -> names of its output mailboxes
 
     def observer(self, sched, why):
         if self.cap_violation is not None:
@@ -105,6 +111,24 @@ def run_once(d, n_chunks):
                         W.fetch_violation = dict(mailbox=mb.name, box=sorted(have),
                                                  waiting=list(mb._subscriber_waiting_for),
                                                  drive=list(mb._subscriber_can_drive))
+                    elif mb.name.endswith("_divide_outputs_mailbox"):
+                        # The iterator of a multi-output plugin feeds its output mailboxes through strax's internal
+                        # divider (the only subscriber of this temporary mailbox).  The plugin is the source of those
+                        # mailboxes: it may be advanced only while a driving reader of one of its outputs waits for
+                        # a message that is not there yet.
+                        outs = W.outputs_of.get(mb.name, ())
+                        fed = [b for b in W.boxes if b.name in outs]
+                        if any(b.killed for b in fed):
+                            fed = []  # the pipeline is being torn down
+                        demand = any(drv and w is not None and w not in {num for num, _ in b._mailbox}
+                                     for b in fed
+                                     for drv, w in zip(b._subscriber_can_drive, b._subscriber_waiting_for))
+                        if fed and not demand:
+                            W.fetch_violation = dict(
+                                mailbox=mb.name, multi_output_plugin_advanced_without_demand_on_any_output={
+                                    b.name: dict(box=sorted(num for num, _ in b._mailbox),
+                                                 waiting=list(b._subscriber_waiting_for),
+                                                 drive=list(b._subscriber_can_drive)) for b in fed})
                 try:
                     x = next(it)
                 except StopIteration:
@@ -119,6 +143,9 @@ def run_once(d, n_chunks):
 
     try:
         classes = graphs.build_classes(spec, token, 1)
+        for n in spec["nodes"]:
+            if n["op"] == "multi":
+                W.outputs_of[f"P_{n['name']}_divide_outputs_mailbox"] = tuple(f"{o}_mailbox" for o in n["outs"])
         for n in spec["nodes"]:
             if n["op"] == "source":
                 rows = [[2 * i, 2 * i + 1] for i in range(n_chunks)]
@@ -170,12 +197,36 @@ def bound(d, state):
     return d["k"] + d["cap"] * (state["nboxes"] + state["subs"]) + 3 * state["threads"] + w
 
 
+def lag_allowance(spec):
+    """Extra capacity for graphs in which a multi-dependency plugin reads one upstream mailbox both directly and
+    through a withholding plugin (diamond + overlap / down-chunking): there the direct branch must buffer what the
+    withholding branch holds back, and the property only promises progress when the capacity exceeds that lag.
+    An overlap plugin withholds results ending within 2*w_right + 1 of the input end, i.e. w_right + 1 chunks of
+    2 grid units (+1 for the early split); the allowance is a constant of the graph, never of the run length."""
+    if not (graphs.has_lag(spec) and graphs.has_diamond(spec)):
+        return 0
+    extra = 0
+    for n in spec["nodes"]:
+        if n["op"] == "overlap":
+            extra += n["w"][0] + n["w"][1] + 3
+        if n["op"] == "downchunk":
+            extra += 2
+    return extra
+
+
 def run_case(d):
+    allowance = lag_allowance(d["spec"])
+    if allowance:
+        d = dict(d, cap=d["cap"] + allowance)
     # first run with a generous N to learn the structure sizes, then N and 2N with N > B
     state0, exc, S, W = run_once(d, 60)
     if exc is not None:
         raise Violation("pause.raised:" + type(exc).__name__, f"{exc!r} {d}") from exc
     if "source_calls" not in state0:
+        if allowance:
+            # capacity not provably above the lag of this shape: undecided, never a violation (termination with a
+            # capacity certainly above the lag is what C01 / C06 check)
+            raise Inconclusive(f"no quiescence on a diamond with a withholding plugin (capacity {d['cap']})")
         raise Violation("pause.no_quiescence", f"{S.report()} {d}")
     B = bound(d, state0)
     N = max(B + 20, 40)
@@ -200,6 +251,8 @@ def run_case(d):
     cl += ["op:" + o for o in sorted(ops - {"source"})]
     if graphs.has_diamond(d["spec"]):
         cl.append("diamond")
+    if allowance:
+        cl.append("capacity_raised_by_lag_allowance")
     if d["policy"].get("kind") == "starve":
         cl.append("starve_policy")
     if results[0][1] != results[1][1]:
